@@ -90,6 +90,7 @@ Clause(o, op, ev) ==
     [] raised /\ "upd" \notin exp.free /\ \E id \in DOMAIN o : ~unchangedOK(id) -> "changed-on-raise"
     [] raised /\ PostIds(ev) \ DOMAIN o # {} -> "object-created-on-raise"
     [] raised -> "ok"
+    [] exp.pred # "" /\ ~PredOK(exp.pred, o, ev, ev.out.vals, ev.post) -> "relation"
     [] "vals" \notin exp.free /\ Len(ev.out.vals) # Len(exp.vals) -> "return-count"
     [] "vals" \notin exp.free /\ \E i \in 1..Len(exp.vals) : ~ValOK(exp, ev, i) -> "return-value"
     [] "vals" \notin exp.free /\ \E i \in 1..Len(exp.vals) : ~AliasOK(o, exp, ev, i) -> "return-identity"
